@@ -5,7 +5,7 @@ _f_all = ['hash_key', 'cmi_hash_find_index', 'hash_find_slot', 'hash_rehash', 'h
           'cmi_hashheap_count/_is_empty/_peek_*/_is_enqueued (header inlines)']
 _stubs = ['hash_key replaced by an uninterpreted function of (key, exponent) masked to the map size (range fact proved for the real one in C02.L0)',
           'cmi_aligned_alloc/_free, cmi_pagesize: fresh page-multiple allocation']
-def _op(name, entry, define, exp, tier, backend='sat', timeout=600, fn=None, extra=(), cmin=None, canaries=1, unwind=None, more_replace=()):
+def _op(name, entry, define, exp, tier, backend='sat', timeout=1500, fn=None, extra=(), cmin=None, canaries=1, unwind=None, more_replace=()):
     cap = 1 << exp
     defs = [define, 'CMV_EXP=%d' % exp] + list(extra) + (['CMV_COUNT_MIN=%d' % cmin] if cmin is not None else [])
     return Group(id='C02.L3.%s.cap%d' % (name, cap), prop='C02', harness='hashheap.c', entry=entry, defines=defs,
